@@ -185,6 +185,66 @@ type Result struct {
 	Quiescent bool
 	Snapshots int
 	Gs        []G // goroutines of the case at the last snapshot
+	// Spinning: the point was accepted although an engine goroutine never blocks: it stayed runnable in
+	// this engine function over the whole sampling window while everything else was blocked and the
+	// trace stream was silent (a busy loop makes no progress the driver could wait for)
+	Spinning string
+}
+
+// SpinSettled decides, after a wait has expired, whether the case is settled except for engine goroutines
+// that spin: over 40 samples (5 ms apart) progress() does not change (no trace arrives), extra() holds, no
+// driver goroutine is active, and in at least 80 % of the samples some engine goroutine is runnable (a busy
+// loop, possibly bouncing between two goroutines, e.g. a caller retrying a request its peer ignores). The
+// workloads contain no real timers and no computation of that length, so 200 ms of invisible activity is a
+// spin. Returns the engine function seen runnable most often ("" = not settled).
+func SpinSettled(label string, extra Extra, progress func() int64) (string, []G) {
+	const samples = 40
+	hot := map[string]int{}
+	active := 0
+	before := progress()
+	var last []G
+	for i := 0; i < samples; i++ {
+		time.Sleep(5 * time.Millisecond)
+		if extra != nil && !extra() {
+			return "", nil
+		}
+		if progress() != before {
+			return "", nil
+		}
+		snap := Take()
+		gs := snap.Case(label)
+		last = gs
+		any := false
+		for j := range gs {
+			g := &gs[j]
+			if g.Blocked() {
+				continue
+			}
+			if g.IsDriver() {
+				return "", nil
+			}
+			any = true
+			if fn := g.TopRepoFrame(); fn != "" {
+				hot[fn]++
+			}
+		}
+		if any {
+			active++
+		}
+	}
+	if progress() != before || active < samples*8/10 {
+		return "", nil
+	}
+	best := ""
+	for fn, n := range hot {
+		if best == "" || n > hot[best] || (n == hot[best] && fn < best) {
+			best = fn
+		}
+	}
+	if best == "" {
+		best = "unknown"
+	}
+	return best, last
 }
 
 // Extra lets the driver add conditions (e.g. subscriber channel empty).
